@@ -7,8 +7,10 @@ Mirrors, branch by branch:
 * `_parse_single_adbasic_file`  — `scanFile` (text-mode universal newlines, `str.splitlines`, the two
   regexes `re_define` / `re_include` written out as functions);
 * `_resolve_include_path`       — `resolveInclude` (`posixpath.join`, `dirname`, `normpath` written out);
-* `parse_adbasic_program`       — `parseLoop` (a FIFO work-list *without a visited set*, so the model
-  needs fuel: one unit of fuel = one `open()` of the real parser);
+* `parse_adbasic_program`       — `parseLoop` (a FIFO work-list plus the set `files_parsed` of normalised
+  paths; entries already parsed are skipped. The function is written with fuel — one unit = one `open()`
+  of the real parser, which is what the harness' watchdog counts — and `Props/C20.lean` proves that
+  `length fs + 1` units always suffice);
 * `_extract_data_defines`, `_extract_par_defines`, `analyze_parameter_info` — `extractData`,
   `extractPar`, `analyze` (Python dicts are insertion-ordered association lists). Both loops have the same
   shape: classify the symbol (`dataClass` / `parClass`: prefix test, value regexes, `int()`), then run the
@@ -254,19 +256,29 @@ def resolvedIncludes (incDir file : Str) (incs : List Str) : List Str :=
     | some r => if r.isEmpty then none else some r
     | none => none)
 
-/-- `parse_adbasic_program`: `while files_remaining: pop(0) …`; there is no visited set, hence the fuel -/
-def parseLoop (fs : Files) (incDir : Str) : Nat → List Str → List Sym → ParseRes
-  | _, [], acc => .ok acc
-  | 0, _ :: _, _ => .outOfFuel
-  | n + 1, f :: rest, acc =>
-    match openFile fs f with
-    | .error e => .exc e
-    | .ok raw =>
-      let (syms, incs) := scanFile f raw
-      parseLoop fs incDir n (rest ++ resolvedIncludes incDir f incs) (acc ++ syms)
+/-- the iterations that only `continue`: pop entries whose normalised path is in `files_parsed` -/
+def dropSeen (seen : List Str) : List Str → List Str
+  | [] => []
+  | f :: rest => if normpath f ∈ seen then dropSeen seen rest else f :: rest
+
+/-- `parse_adbasic_program`: `while files_remaining: pop(0); skip if normpath in files_parsed; parse; queue includes` -/
+def parseLoop (fs : Files) (incDir : Str) : Nat → List Str → List Str → List Sym → ParseRes
+  | 0, wl, seen, acc =>
+    match dropSeen seen wl with
+    | [] => .ok acc
+    | _ :: _ => .outOfFuel
+  | n + 1, wl, seen, acc =>
+    match dropSeen seen wl with
+    | [] => .ok acc
+    | f :: rest =>
+      match openFile fs f with
+      | .error e => .exc e
+      | .ok raw =>
+        let (syms, incs) := scanFile f raw
+        parseLoop fs incDir n (rest ++ resolvedIncludes incDir f incs) (normpath f :: seen) (acc ++ syms)
 
 def parseProgram (fuel : Nat) (fs : Files) (file incDir : Str) : ParseRes :=
-  parseLoop fs incDir fuel [file] []
+  parseLoop fs incDir fuel [file] [] []
 
 /-! ## Symbol analysis -/
 
@@ -282,6 +294,7 @@ inductive ErrKind
   | dupIndex       -- "... for different data array" / "... for different parameter"
   | dupRef         -- "Symbol {} is a duplicate reference to {}"
   | unknownArray   -- "Symbol {} refers to unknown array {}"
+  | invalidIndex   -- "Invalid index in definition of symbol {}" (`_parse_index`: `int()` raised ValueError)
   deriving DecidableEq, Repr
 
 /-- `ParseException(filename, line_nr, message)`; `extra` is the second `{}` of the message, if any -/
@@ -293,9 +306,9 @@ structure ParseErr where
   extra : Str
   deriving DecidableEq, Repr
 
+/-- what `analyze_parameter_info` can raise: only `ParseException` -/
 inductive AErr
   | parse (e : ParseErr)
-  | valueError           -- `int()` on more than 4300 digits
   deriving DecidableEq, Repr
 
 /-- insertion-ordered Python dict -/
@@ -309,7 +322,7 @@ def dictSet {α β : Type} [DecidableEq α] : Dict α β → α → β → Dict 
   | [], a, b => [(a, b)]
   | (k, v) :: rest, a, b => if k = a then (k, b) :: rest else (k, v) :: dictSet rest a b
 
-/-- CPython refuses `int(s)` for more than 4300 digits -/
+/-- CPython refuses `int(s)` for more than 4300 digits (ValueError, turned into ParseException by `_parse_index`) -/
 def maxDigits : Nat := 4300
 
 inductive IdxRes
@@ -358,7 +371,7 @@ def bindOne {τ : Type} [DecidableEq τ] (st : BState τ) (name : Str) (t : τ) 
 /-- what one symbol means to an extraction loop -/
 inductive Cls (τ : Type)
   | skip                          -- other prefix, or unrecognised value (warning + `continue`)
-  | tooLong                       -- `int()` raises ValueError
+  | tooLong                       -- `_parse_index` raises ParseException (index has too many digits)
   | unknownArray (a : Str)        -- element of an array nobody named
   | defn (name : Str) (t : τ)     -- a definition `name ↦ t`
   deriving Repr
@@ -369,7 +382,7 @@ def mkErr (s : Sym) (k : ErrKind) (extra : Str) : AErr :=
 /-- one loop iteration, given the classification of the symbol -/
 def stepCls {τ : Type} [DecidableEq τ] (st : BState τ) (s : Sym) : Cls τ → Except AErr (BState τ)
   | .skip => .ok st
-  | .tooLong => .error .valueError
+  | .tooLong => .error (mkErr s .invalidIndex [])
   | .unknownArray a => .error (mkErr s .unknownArray a)
   | .defn name t =>
     match bindOne st name t with
@@ -423,7 +436,7 @@ def matchElem (value : Str) : ElemRes :=
 
 inductive ValRes
   | none                      -- unrecognised: warning, `continue`
-  | tooLong                   -- ValueError from `int()`
+  | tooLong                   -- `_parse_index` fails
   | unknownArray (name : Str) -- ParseException
   | desc (d : Desc)
   deriving DecidableEq, Repr
